@@ -144,6 +144,14 @@ Settle2(cfg, obs) ==
   (obs.quiet /\ obs.cancelled /\ AllInClosed(obs) /\ obs.pending = 0 /\ obs.now >= obs.lastEnvAt + Grace(cfg, obs)) =>
     (obs.live = 0 /\ \A o \in obs.outs : ~obs.rp[o])
 
+\* Lift / LiftF (fail-fast): once the user function has failed on an element the stage delivers that error, closes both
+\* channels and is gone - whether or not anybody is reading the error channel at that moment (the error waits in its buffer;
+\* `ToSeq(out)` followed by `<-exx` is the documented way to consume a fail-fast stage)
+LiftCloses(cfg, obs) ==
+  (cfg.kind \in {"Map", "FMap", "Emit", "Unfold"} /\ cfg.mode = "lift" /\ ~Parallel(cfg) /\ obs.quiet /\ obs.pending = 0
+     /\ \E j \in 1..Len(obs.calls) : obs.calls[j].x \in cfg.fail)
+    => (obs.live = 0 /\ \A o \in obs.outs : ~obs.rp[o])
+
 (* ==================================================================================== C08 the unbounded channel *)
 NeverBlocksSender(cfg, obs) == (cfg.kind = "New" /\ obs.quiet /\ ~obs.cancelled /\ ~obs.closed[1]) => obs.pend[1] = <<>>
 LosslessAfterCancel(cfg, obs) == (cfg.kind = "New" /\ obs.cancelled /\ obs.seen["out"]) => IsPrefix(obs.sentAtCancel[1], obs.got["out"])
@@ -220,7 +228,7 @@ ThrottlePaced(cfg, obs) ==
 Verdicts(cfg, obs) ==
   [Prefix |-> Prefix(cfg, obs), SeqExact |-> SeqExact(cfg, obs), FoldRes |-> FoldRes(cfg, obs), Complete |-> Complete(cfg, obs), TakeBound |-> TakeBound(cfg, obs),
    CallsPrefix |-> CallsPrefix(cfg, obs), CallsComplete |-> CallsComplete(cfg, obs), NoPanic |-> NoPanic(cfg, obs),
-   Settle1 |-> Settle1(cfg, obs), Settle2 |-> Settle2(cfg, obs),
+   Settle1 |-> Settle1(cfg, obs), Settle2 |-> Settle2(cfg, obs), LiftCloses |-> LiftCloses(cfg, obs),
    NeverBlocksSender |-> NeverBlocksSender(cfg, obs), LosslessAfterCancel |-> LosslessAfterCancel(cfg, obs), NewSettle |-> NewSettle(cfg, obs),
    GenExact |-> GenExact(cfg, obs), EmitPaced |-> EmitPaced(cfg, obs), EmitKeepUp |-> EmitKeepUp(cfg, obs), GenSettle |-> GenSettle(cfg, obs),
    JoinPerInput |-> JoinPerInput(cfg, obs), JoinNothingInvented |-> JoinNothingInvented(cfg, obs), JoinComplete |-> JoinComplete(cfg, obs),
